@@ -56,6 +56,8 @@ func C19(e *Env) {
 	r := e.R
 	r.Level = "translation_validation"
 	e.analysedBase()
+	yamlKeysRule(e, "R11.12")
+	e.R.Rule("R11.12", "key table (shared with C11): the tool's own configuration uses the documented keys; a key the model no longer recognises is dropped silently and the regenerated file differs", 25)
 	r.Rule("R19.1", "YAML ⇔ Go: the model read from the YAML files (in the Makefile's self-compile order, merged as documented) equals the model extracted from the checked-in gontainer.go — same meta names, parameters, services (creation method and symbol, ordered arguments by kind and payload, fields, calls, tags, scope, todo), decorators in order, getters with their types and must-getters", 100)
 	gm, ym, ok := e.models()
 	if !ok {
